@@ -257,7 +257,7 @@ fn mk(msg: usize, cuts: &[usize], cont: u8, kind: Kind) -> Case {
 ///
 /// quick: the 8 small shapes (23..103 bytes); thorough: additionally the 327-byte shape, 4-frame partitions of
 /// the shapes below 40 bytes and the denser variants marked below.
-fn enumerate(corpus: &[Shape], quick: bool) -> Vec<Case> {
+fn enumerate(corpus: &[Shape], quick: bool, deep: bool) -> Vec<Case> {
     let mut v = vec![];
     let nshapes = if quick { corpus.len().min(SHAPES.len()) } else { corpus.len() };
     let all_conts: Vec<u8> = (0..8).collect();
@@ -304,7 +304,7 @@ fn enumerate(corpus: &[Shape], quick: bool) -> Vec<Case> {
             }
         }
         // (c') thorough: four frames, all triples of offsets, for the shapes below 40 bytes
-        if !quick && len < 40 {
+        if !quick && len < if deep { 60 } else { 40 } {
             for (x, a) in all.iter().enumerate() {
                 for (y, b) in all.iter().enumerate().skip(x + 1) {
                     for c3 in &all[y + 1..] {
@@ -1185,7 +1185,10 @@ pub fn run(ctx: &Ctx) -> Outcome {
     if let Some(p) = &ctx.replay {
         return replay(p, out);
     }
-    let quick = ctx.quick();
+    // (the quick tier runs what used to be the thorough enumeration - about 10 s; thorough adds the 4-frame
+    // partitions of the shapes below 60 bytes)
+    let deep = !ctx.quick();
+    let quick = false;
     let (shapes, dropped) = corpus();
     let nshapes = if quick { shapes.len().min(SHAPES.len()) } else { shapes.len() };
     for d in dropped {
@@ -1197,7 +1200,7 @@ pub fn run(ctx: &Ctx) -> Outcome {
     }
     let corpus = Arc::new(shapes);
     let deadline = ctx.start + Duration::from_secs_f64((ctx.budget_s - 3.0).max(1.0));
-    let cases = enumerate(&corpus, quick);
+    let cases = enumerate(&corpus, quick, deep);
     let enumerated = cases.len() as u64;
     // what the enumeration covers, measured on the cases themselves
     let mut fam: BTreeMap<String, u64> = BTreeMap::new();
@@ -1354,7 +1357,7 @@ pub fn run(ctx: &Ctx) -> Outcome {
             corpus.iter().take(nshapes).map(|s| s.bytes.len()).min().unwrap_or(0),
             corpus.iter().take(nshapes).map(|s| s.bytes.len()).max().unwrap_or(0),
             if quick { "the 327-byte shape only as one sample and as the second link's message" } else { "including one 327-byte shape with a 4-byte length field" },
-            if quick { "" } else { "; 4 frames at all triples of offsets (shapes < 40 bytes)" },
+            if quick { "" } else if deep { "; 4 frames at all triples of offsets (shapes < 60 bytes)" } else { "; 4 frames at all triples of offsets (shapes < 40 bytes)" },
             if quick { "a few" } else { "the header/length-field" },
             if quick { "the header/length-field" } else { "all" },
             if quick { "the header/length-field" } else { "all" },
